@@ -551,6 +551,10 @@ func (s *pairH) Setup() {
 				sub = hx.Op{K: "set", Key: "e", Val: fmt.Sprintf("ing%d", who)}
 			case "ingestexcise":
 				sub = hx.Op{K: "set", Key: "b", Val: fmt.Sprintf("ie%d", who)}
+			case "ingestc":
+				// overlaps the memtable (c=init is unflushed): takes the flushable-ingest path, which
+				// writes its own WAL record and rotates the memtable
+				sub = hx.Op{K: "set", Key: "c", Val: fmt.Sprintf("ingc%d", who)}
 			default:
 				continue
 			}
@@ -597,6 +601,10 @@ func pairApplyModel(op string, who int, m map[string]string) string {
 		delete(m, "b")
 	case "ingestexcise":
 		m["b"] = fmt.Sprintf("ie%d", who)
+	case "ingestc":
+		m["c"] = fmt.Sprintf("ingc%d", who)
+	case "setc":
+		m["c"] = fmt.Sprintf("sc%d", who)
 	case "efos":
 		return renderMap(m)
 	}
@@ -672,6 +680,10 @@ func (s *pairH) runOp(who int, op string) error {
 		err = d.Excise(context.Background(), pebble.KeyRange{Start: []byte("b"), End: []byte("c")})
 	case "checkpoint":
 		err = d.Checkpoint(fmt.Sprintf("ck%d", who), pebble.WithFlushedWAL())
+	case "ingestc":
+		err = d.Ingest(context.Background(), []string{s.ssts[fmt.Sprintf("%d/ingestc", who)]})
+	case "setc":
+		err = d.Set([]byte("c"), []byte(fmt.Sprintf("sc%d", who)), pebble.NoSync)
 	case "ingestexcise":
 		_, err = d.IngestAndExcise(context.Background(), []string{s.ssts[fmt.Sprintf("%d/ingestexcise", who)]}, nil, nil, pebble.KeyRange{Start: []byte("b"), End: []byte("c")})
 	case "efos":
@@ -694,6 +706,30 @@ func (s *pairH) Finish() {
 	r, err := scan(s.x.D, false)
 	s.final, s.ferr = render(r), err
 	if err == nil {
+		// Get must agree with the scan for every key (Get stops at the newest flushable that has
+		// the key, an iterator merges by sequence number: a flushable queue out of sequence-number
+		// order makes them disagree)
+		have := map[string]string{}
+		for _, kv := range r {
+			have[kv.K] = kv.V
+		}
+		for _, k := range []string{"a", "b", "c", "d", "e"} {
+			v, c, gerr := s.x.D.Get([]byte(k))
+			got, present := "", false
+			if gerr == nil {
+				got, present = string(v), true
+				c.Close()
+			} else if gerr != pebble.ErrNotFound {
+				s.ferr = gerr
+				break
+			}
+			if w, ok := have[k]; ok != present || w != got {
+				s.ferr = fmt.Errorf("Get(%s)=%q (present=%v) but the scan shows %q (present=%v)", k, got, present, w, ok)
+				break
+			}
+		}
+	}
+	if s.ferr == nil {
 		s.ferr = s.x.D.CheckLevels(nil)
 	}
 	s.close = s.x.D.Close()
@@ -796,6 +832,7 @@ func pairScenarios() []d1x.Scenario {
 	for _, e := range [][2]string{
 		{"checkpoint", "ingest>setsync"}, {"checkpoint", "setsync>ingest"}, {"checkpoint", "excise>setsync"},
 		{"efos", "ingestexcise"}, {"efos", "excise"}, {"efos", "ingest>setsync"}, {"efos", "flush"}, {"efos", "batch"},
+		{"ingestc", "setc"}, {"ingestc", "batch"}, {"ingestc", "flush"}, {"ingestc", "scan"},
 		{"ingestexcise", "scan"}, {"ingestexcise", "snapget"}, {"ingestexcise", "set"}, {"ingestexcise", "flush"}, {"ingestexcise", "checkpoint"},
 	} {
 		e := e
@@ -806,6 +843,23 @@ func pairScenarios() []d1x.Scenario {
 }
 
 func scenarios1(prop string) []d1x.Scenario {
+	if prop == "C07-conc" {
+		// C07 at DB level for the paths the commit-pipeline seam does not contain: ingestion allocates
+		// its sequence number through AllocateSeqNum and, when it overlaps the memtable, writes its own
+		// WAL record, rotates the memtable and queues a flushable - concurrently with ordinary
+		// commits of the same key. Afterwards Get and a scan must agree and equal a sequential order.
+		mkp := func(a, b string, qb, tb int, w float64) d1x.Scenario {
+			return d1x.Scenario{Name: "pair-" + a + "+" + b, QuickBound: qb, ThoroughBound: tb, Weight: w, Judge: judgePair, MaxSteps: 400000,
+				New: func() vsched.Harness { return &pairH{ops: [2]string{a, b}} }}
+		}
+		return []d1x.Scenario{
+			mkp("ingestc", "setc", 1, 2, 8),
+			mkp("ingestc", "setc>get", 0, 1, 1),
+			mkp("ingestc", "batch", 0, 1, 1),
+			mkp("ingest", "setc", 0, 1, 1),
+			mkp("ingestexcise", "set", 0, 1, 1),
+		}
+	}
 	if len(prop) > 3 {
 		prop = prop[:3] // "C04-conc" run on its own
 	}
